@@ -225,8 +225,20 @@ theorem bq_modH (s : State) (id : Nat) (g : Handle → Handle) (hg : ∀ h, (g h
   unfold pipeConnectBad; simp only; rw [bq_ioFeed]
   refine Eq.trans (bq_modH _ _ _ ?_) rfl
   intro _; rfl
-@[simp] theorem bq_workSubmit (s : State) : bq (workSubmit s) = bq s := by
-  unfold workSubmit; simp only; split <;> rfl
+@[simp] theorem bq_workSubmit (s : State) (api : Api) : bq (workSubmit s api) = bq s := by
+  unfold workSubmit; simp only; split
+  · split
+    · rfl
+    · rw [bq_asyncSend]; rfl
+  · rfl
+@[simp] theorem bq_ringInit (s : State) : bq (ringInit s) = bq s := by
+  unfold ringInit; split <;> rfl
+@[simp] theorem bq_submit (s : State) (api : Api) : bq (submit s api) = bq s := by
+  unfold submit; simp only; split
+  · split
+    · unfold ringSubmit; simp only; exact bq_ringInit s
+    · rw [bq_workSubmit, bq_ringInit]
+  · rw [bq_workSubmit]
 @[simp] theorem bq_workCancel (s : State) (r : Nat) : bq (workCancel s r).1 = bq s := by
   unfold workCancel; split
   · simp; rfl
@@ -696,6 +708,10 @@ theorem workDoneLoop_bstep (sc : Script) (fuel : Nat) (s : State) : BStep s (wor
       exact BStep.bq_left (a' := { s with doneLocal := rest, ar := reqUnregister s.ar, reqs := s.reqs.filter (·.id != r) }) rfl
         (runCb_bstep _ _ _ _ _ _ _ _ _)
 
+theorem ringDone_bstep (sc : Script) (cq : List Nat) (s : State) : BStep s (ringDone sc cq s) := by
+  unfold ringDone
+  exact (BStep.of_bq (ringTake_frame bq (fun _ _ _ => rfl) s cq)).trans (workDoneLoop_bstep _ _ _)
+
 theorem workDone_bstep (sc : Script) (s : State) : BStep s (workDone sc s) := by
   unfold workDone
   exact BStep.bq_left (a' := { s with doneLocal := s.doneQ, doneQ := [] }) rfl (workDoneLoop_bstep _ _ _)
@@ -762,6 +778,9 @@ theorem dispatchLoop_bstep (sc : Script) (fuel : Nat) (s : State) (n : Nat) (sg 
             · exact h0.trans (pollIo_bstep _ _ _ _)
             · exact h0.trans (udpIo_bstep _ _ _ _ _)
             · exact h0
+      · split
+        · exact (h0.trans (ringDone_bstep _ _ _)).trans (ih _ _ _)
+        · exact h0.trans (ih _ _ _)
 
 theorem pollLoop_bstep (sc : Script) (fuel : Nat) (s : State) (c : PollCtl) : BStep s (pollLoop sc fuel s c) := by
   induction fuel generalizing s c with
